@@ -478,6 +478,14 @@ fn c18_termless(rng: &mut Rng) -> Case {
         if slot == 1 {
             c.op(format!("addrec g 77 {}", name("only new")));
         }
+        // rejected calls (there is no term at all): they leave no record behind, so the comparison
+        // does not report one
+        for (k, kind) in KINDS.iter().enumerate() {
+            if rng.chance(1, 2) {
+                c.op(format!("ann {kind} {} {} {}", 90 + k as u32 + 3 * slot, name("rejected"), *rng.pick(&[5u32, 1, 424_242])));
+                c.stat("rejected_annotate_calls", 1);
+            }
+        }
         c.op("ic".to_string());
         c.op(format!("build min {slot}"));
     }
